@@ -1286,9 +1286,29 @@ def digest(exp: Experiment) -> str:
 # =====================================================================================================
 #  driver of the whole check
 # =====================================================================================================
+def sweep_stale_dirs(max_age_s=3600):
+    """a check that was killed hard cannot run its `finally`; remove this harness's own temp directories (prefix
+    `c19-`, created by mkdtemp below) once they are older than any run can last"""
+    base = tempfile.gettempdir()
+    now = time.time()
+    try:
+        names = os.listdir(base)
+    except OSError:
+        return
+    for name in names:
+        path = os.path.join(base, name)
+        if name.startswith("c19-") and os.path.isdir(path) and not os.path.islink(path):
+            try:
+                if now - os.stat(path).st_mtime > max_age_s and os.stat(path).st_uid == os.getuid():
+                    shutil.rmtree(path, ignore_errors=True)
+            except OSError:
+                pass
+
+
 class Runner:
     def __init__(self, ctx, use_model=True):
         self.ctx = ctx
+        sweep_stale_dirs()
         self.root = tempfile.mkdtemp(prefix="c19-")
         self.n = 0
         self.workers = int(os.environ.get("C19_WORKERS", "8"))
@@ -1405,7 +1425,7 @@ def run(ctx):
             if exp.label in ("scripted-identity", "scripted-wallet", "scripted-blocks"):
                 fsize_runs(runner, exp, probe, rng, ctx.scale(12, 150))
         # generated workloads
-        n_gen = ctx.scale(70, 520)
+        n_gen = ctx.scale(70, 360)
         for i in range(n_gen):
             kind = rng.choice(["identity", "identity", "wallet", "manager"])
             n_ops = rng.choice([3, 6, 10, 16, 24])
